@@ -5,6 +5,7 @@ import (
 	"fmt"
 	"runtime"
 	"sort"
+	"time"
 
 	of "github.com/contiv/libOpenflow/openflow13"
 
@@ -30,6 +31,7 @@ type c10Case struct {
 	Trailing    int    `json:"trailing"`    // bytes of an incomplete extra frame appended after the complete ones (0 = none)
 	FailAt      int    `json:"fail_at"`     // -1: connection stays open; -2: fails right after the last byte; k >= 0: fails after byte k
 	FailErr     string `json:"fail_err"`    // eof | unexpected | reset
+	Outbound    int    `json:"outbound"`    // messages the application sends on the same stream while frames arrive
 	ShutdownAt  int    `json:"shutdown_at"` // the application requests shutdown after this many deliveries (0 = not before the end)
 	ReadYield   int    `json:"read_yield"`
 	ParseBefore int    `json:"parse_before"`
@@ -92,6 +94,9 @@ func c10Gen(tier string, seed uint64, i int) any {
 	}
 	if i%4 == 2 {
 		c.Undecodable = r.Pick(2, 5, 9, 40)
+	}
+	if i%6 == 1 {
+		c.Outbound = r.Pick(1, 3, 10)
 	}
 	if i%7 == 4 && c.FailAt == -1 { // the application shuts the stream down while frames are in flight
 		c.ShutdownAt = 1 + r.Intn(maxInt(1, c.Frames))
@@ -287,6 +292,13 @@ func c10Eval(c *fw.Ctx, data any) {
 	c.Set("gomaxprocs", fmt.Sprint(cs.Procs))
 
 	s := startStream(conn, cs.Consumer, cs.ParseBefore, cs.ParseAfter, cs.ShutdownAt)
+	for k := 0; k < cs.Outbound; k++ { // the application also sends (echo replies): both directions share the connection
+		h := of.NewEchoReply()
+		select {
+		case s.stream.Outbound <- h:
+		case <-time.After(5 * time.Second):
+		}
+	}
 	okQ := s.finish()
 	kind := "open"
 	if failing {
